@@ -9,7 +9,25 @@
 #define VF_MOD_H
 #include "common.h"
 
+/* the four table builders that the symbolic front end cannot execute (libm sin/cos, pointer<->integer casts, level search in
+ * floating point) are redirected to harness functions returning objects built from the dumped tables (apimod.h); everything
+ * else in module_api.c - fill_module_precomp, fill_virtual_table, the conversion / pointwise precomputations - is the real code */
+#define new_reim_fft_precomp vf_new_reim_fft_precomp
+#define new_reim_ifft_precomp vf_new_reim_ifft_precomp
+#define q120_new_ntt_bb_precomp vf_q120_new_ntt_bb_precomp
+#define q120_new_intt_bb_precomp vf_q120_new_intt_bb_precomp
 #include "arithmetic/module_api.c" /* CPU_SUPPORTS() resolves to the harness flag, see cpu_hook.h */
+#undef new_reim_fft_precomp
+#undef new_reim_ifft_precomp
+#undef q120_new_ntt_bb_precomp
+#undef q120_new_intt_bb_precomp
+#ifndef VF_HAVE_TABLE_BUILDERS
+/* harnesses that never build tables */
+REIM_FFT_PRECOMP* vf_new_reim_fft_precomp(uint32_t m, uint32_t nb) { (void)m; (void)nb; return 0; }
+REIM_IFFT_PRECOMP* vf_new_reim_ifft_precomp(uint32_t m, uint32_t nb) { (void)m; (void)nb; return 0; }
+q120_ntt_precomp* vf_q120_new_ntt_bb_precomp(const uint64_t n) { (void)n; return 0; }
+q120_ntt_precomp* vf_q120_new_intt_bb_precomp(const uint64_t n) { (void)n; return 0; }
+#endif
 
 /* no precomputed tables: enough for every coefficient-space / big-coefficient function */
 static void vf_module_init_notables(MODULE* m, uint64_t nn, MODULE_TYPE t, int avx) {
